@@ -176,6 +176,7 @@ def run_check(prop, tier='quick', seed=0, strict=False, procs=None):
 
     # ---- 4. bounded stand-ins (never counted as proved)
     bounded_records = []
+    bounded_known_seen = set()
     for modname, fam in families:
         for b in fam.bounded:
             if prop not in b.serves:
@@ -191,8 +192,24 @@ def run_check(prop, tier='quick', seed=0, strict=False, procs=None):
                        wall_s=round(time.time() - tb, 2))
             failures = res.pop('failures', [])
             res['failures'] = len(failures)
+            res['unknown_failures'] = len([f for f in failures if not f.get('known')])
+            for extra in ('failure_classes', 'failure_total'):
+                if extra in res:
+                    res[extra] = res[extra]
             bounded_records.append(res)
+            listed = {k.get('id') for k in my_known if k.get('kind') == 'bounded'}
+            for label in (res.get('failure_classes') or {}):
+                for part in str(label).split('|')[-1].strip().split('+'):
+                    if part in listed:
+                        bounded_known_seen.add(part)
             for f in failures:
+                kid = f.get('known_id')
+                parts = str(kid).split('+') if kid else []
+                if f.get('known') and parts and all(p_ in listed for p_ in parts):
+                    bounded_known_seen.update(parts)
+                    continue
+                f = dict(f)
+                f['known'] = False      # a class the committed known-findings file does not list is a violation
                 violations.append(handle_bounded_failure(prop, b, f))
 
     # ---- 5. known findings: witnesses must still fail; print KNOWN-FINDING
@@ -203,6 +220,11 @@ def run_check(prop, tier='quick', seed=0, strict=False, procs=None):
             continue
         final_violations.append(v)
     for k in my_known:
+        if k.get('kind') == 'bounded':
+            if k['id'] in bounded_known_seen:
+                known_reported.append({'id': k['id'], 'what': k['what'], 'status': 'witnessed by the bounded suite in this run'})
+                lines.append('KNOWN-FINDING: property=%s %s: %s' % (prop, k['id'], k['what']))
+            continue
         fam = None
         for modname, f in families:
             if k.get('function') in f.replay or k.get('replayer') in f.replay:
